@@ -35,8 +35,11 @@ package goja
 //@ func (*generatorObject).step
 //@   props C09
 //@   requires g != nil && g.gen.vm != nil
+//@   requires g.state == genStateExecuting [settles-a-running-generator]
 //@   ensures g.state != genStateExecuting [settled]
-//@   ensures_abrupt ex != nil || resType == resultYield || resType == resultYieldDelegate || resType == resultYieldRes || resType == resultYieldDelegateRes || resType == resultNormal ==> g.state != genStateExecuting [settled-on-panic]
+// (a panic out of a delegation that is being set up leaves the generator running: the deferred
+// completeOnPanic of the entry point settles it)
+//@   ensures_abrupt ex != nil || resType == resultYield || resType == resultYieldRes || resType == resultNormal ==> g.state != genStateExecuting [settled-on-panic]
 //@   ensures ex == nil && resType == resultNormal ==> g.state == genStateCompleted [return-completes]
 //@   ensures @ggMarkersKept [markers-kept]
 //@   ensures @ggNoNewMarkers [no-marker-left-behind]
@@ -49,12 +52,12 @@ package goja
 //@ func (*generatorObject).delegate
 //@   props C09
 //@   requires g != nil && g.gen.vm != nil && g.state == genStateExecuting
+//@   requires suspended == genStateSuspendedYield || suspended == genStateSuspendedYieldRes [suspension-state]
 //@   site try#1 vars g *generatorObject
 //@   site try#1 requires g.state == genStateExecuting [GetIterator-runs-in-the-executing-state]
 //@   site nextThrow#1 vars g *generatorObject
 //@   site nextThrow#1 requires g.delegated == nil && g.state == genStateExecuting [failure-is-thrown-into-a-running-generator-without-delegate]
 //@   ensures g.state != genStateExecuting [settled]
-//@   ensures_abrupt g.state != genStateExecuting [settled-on-panic]
 //@   ensures @ggMarkersKept [markers-kept]
 //@   ensures @ggNoNewMarkers [no-marker-left-behind]
 //@   ensures_abrupt @ggMarkersKept [markers-kept]
